@@ -1,7 +1,14 @@
 (** WP09, part 2: what the decoder reads back from each of the three printers,
-    as a function of the tree ([child_nodes], [cl_child], [dj]), proved by
-    induction over the tree for every starting level, ancestor stack and
-    continuation of the row list. *)
+    as a function of the tree, proved by induction over the tree for every
+    starting level, ancestor stack and continuation of the row list.
+
+    After fix 3cc3ec3 (a chain of single children is joined only while the
+    totals are Go-equal, [t_eqb]) the read-back is proved for the FULL decoder
+    [decode_full_from] (parent path, own segments, amount, leaf flag) against
+    "rich" tree functions ([rchild_nodes], [rcl_child], [rdj]) that also keep,
+    for every segment of a row, the total of the node it stands for; the
+    three-component functions [child_nodes], [cl_child], [dj] that the theorems
+    about [decode] use are their projections. *)
 From Coq Require Import Lia ZifyBool ZifyNat ZifyN.
 From HP Require Import Base.Bytes Base.Num Model.Elements Model.Tree
   Spec.TreeShared Spec.BalancePrintSpec Proofs.BalancePrintBase.
@@ -12,7 +19,13 @@ Section Decode.
   Notation tree := (tree NM).
   Notation row := (row NM).
   Notation dec := (list bytes * T * bool)%type.
+  Notation fdec := (list bytes * list bytes * T * bool)%type.
+  (** parent path, chain of (segment, node total), amount shown, leaf flag *)
+  Notation rdec := (list bytes * list (bytes * T) * T * bool)%type.
   Notation nosl := (fun s : bytes => ~ In c_slash s).
+
+  Definition strip (rd : rdec) : fdec := let '(pp, chain, y, lf) := rd in (pp, map fst chain, y, lf).
+  Definition rdec_dec (rd : rdec) : dec := fdec_dec NM (strip rd).
 
   Lemma Forall_mp {A} (Q R : A -> Prop) (l : list A) :
     Forall (fun c => Q c -> R c) l -> Forall Q l -> Forall R l.
@@ -24,27 +37,27 @@ Section Decode.
   (** ** Two shapes of rows: a leaf row, and a header row followed by a forest one level deeper *)
   Lemma decode_leaf_row (st : stack) (x : T) (level : nat) (lab : bytes) (rest : list row) :
     head_le NM level rest ->
-    decode_from NM st ((x, level, lab) :: rest) =
-    (stack_path (pop_to level st) ++ split_on c_slash lab, x, true) :: decode_from NM st rest.
+    decode_full_from NM st ((x, level, lab) :: rest) =
+    (stack_path (pop_to level st), split_on c_slash lab, x, true) :: decode_full_from NM st rest.
   Proof.
     intros Hrest. rewrite decode_from_cons.
     rewrite is_leaf_row_head_le by assumption.
     rewrite decode_from_pushed by assumption. reflexivity.
   Qed.
 
-  Lemma decode_header_forest (rows_of : tree -> list row) (dec_of : list bytes -> tree -> list dec)
+  Lemma decode_header_forest (rows_of : tree -> list row) (dec_of : list bytes -> tree -> list fdec)
         (level : nat) (x : T) (lab : bytes) (ch : list tree) (st : stack) (rest : list row) :
     Forall (fun c =>
               starts_at NM (S level) (rows_of c) /\
               forall st' rest', head_le NM (S level) rest' ->
-                decode_from NM st' (rows_of c ++ rest') =
-                dec_of (stack_path (pop_to (S level) st')) c ++ decode_from NM st' rest') ch ->
+                decode_full_from NM st' (rows_of c ++ rest') =
+                dec_of (stack_path (pop_to (S level) st')) c ++ decode_full_from NM st' rest') ch ->
     ch <> [] ->
     head_le NM level rest ->
-    decode_from NM st ((x, level, lab) :: flat_map rows_of ch ++ rest) =
-    (stack_path (pop_to level st) ++ split_on c_slash lab, x, false)
+    decode_full_from NM st ((x, level, lab) :: flat_map rows_of ch ++ rest) =
+    (stack_path (pop_to level st), split_on c_slash lab, x, false)
       :: flat_map (dec_of (stack_path (pop_to level st) ++ split_on c_slash lab)) ch
-      ++ decode_from NM st rest.
+      ++ decode_full_from NM st rest.
   Proof.
     intros Hall Hne Hrest. rewrite decode_from_cons.
     set (p := stack_path (pop_to level st) ++ split_on c_slash lab).
@@ -77,38 +90,72 @@ Section Decode.
     nodes_below prefix (Node n x ch) = flat_map (child_nodes prefix) ch.
   Proof. reflexivity. Qed.
 
+  Fixpoint rnodes_below (prefix : list bytes) (t : tree) : list rdec :=
+    match t with
+    | Node _ _ ch =>
+        flat_map (fun c => (prefix, [(t_name NM c, t_total NM c)], t_total NM c, is_nil (t_children NM c))
+                             :: rnodes_below (prefix ++ [t_name NM c]) c) ch
+    end.
+
+  Definition rchild_nodes (prefix : list bytes) (c : tree) : list rdec :=
+    (prefix, [(t_name NM c, t_total NM c)], t_total NM c, is_nil (t_children NM c))
+      :: rnodes_below (prefix ++ [t_name NM c]) c.
+
+  Lemma rnodes_below_eq prefix n x ch :
+    rnodes_below prefix (Node n x ch) = flat_map (rchild_nodes prefix) ch.
+  Proof. reflexivity. Qed.
+
+  Lemma rchild_nodes_node prefix n x ch :
+    rchild_nodes prefix (Node n x ch) =
+    (prefix, [(n, x)], x, is_nil ch) :: flat_map (rchild_nodes (prefix ++ [n])) ch.
+  Proof. reflexivity. Qed.
+
+  Lemma rchild_nodes_dec (c : tree) :
+    forall prefix, map rdec_dec (rchild_nodes prefix c) = child_nodes prefix c.
+  Proof.
+    induction c as [n x ch IH] using tree_ind'. intros prefix.
+    rewrite rchild_nodes_node. unfold child_nodes. cbn [t_name t_total t_children].
+    rewrite nodes_below_eq. cbn [map rdec_dec strip fdec_dec fst]. f_equal.
+    rewrite map_flat_map. apply flat_map_ext_Forall.
+    eapply Forall_impl; [|exact IH]. intros a Ha. apply Ha.
+  Qed.
+
   Lemma plain_child_dec (c : tree) :
     slash_free NM c -> forall level,
     starts_at NM level (child_rows NM false level c) /\
     forall st rest, head_le NM level rest ->
-      decode_from NM st (child_rows NM false level c ++ rest) =
-      child_nodes (stack_path (pop_to level st)) c ++ decode_from NM st rest.
+      decode_full_from NM st (child_rows NM false level c ++ rest) =
+      map strip (rchild_nodes (stack_path (pop_to level st)) c) ++ decode_full_from NM st rest.
   Proof.
     induction c as [n x ch IH] using tree_ind'. intros Hsf level.
     apply slash_free_node in Hsf. destruct Hsf as [Hn Hch].
     rewrite child_rows_false. cbn [t_total t_name t_children].
     split; [eexists _, _, _; reflexivity|].
     intros st rest Hrest. cbn [app].
-    unfold child_nodes. cbn [t_total t_name t_children]. rewrite nodes_below_eq.
+    rewrite rchild_nodes_node. cbn [map strip fst].
     destruct ch as [|g gr].
-    - cbn [flat_map app is_nil]. rewrite decode_leaf_row by assumption.
+    - cbn [flat_map app is_nil map]. rewrite decode_leaf_row by assumption.
       rewrite split_on_absent by assumption. reflexivity.
-    - rewrite (decode_header_forest (child_rows NM false (S level)) child_nodes).
-      + rewrite split_on_absent by assumption. reflexivity.
+    - rewrite (decode_header_forest (child_rows NM false (S level))
+                 (fun pre a => map strip (rchild_nodes pre a))).
+      + rewrite split_on_absent by assumption. rewrite map_flat_map. reflexivity.
       + eapply Forall_impl; [|exact (Forall_mp _ _ _ IH Hch)].
         intros a Ha. exact (Ha (S level)).
       + discriminate.
       + assumption.
   Qed.
 
-  (** ** Collapse-last mode *)
+  (** ** Collapse-last mode: the last two levels are one row when the leaf is
+         the only child and its total is Go-equal to the parent's *)
   Fixpoint cl_nodes (prefix : list bytes) (t : tree) : list dec :=
     match t with
     | Node _ _ ch =>
         flat_map (fun child =>
           match child with
           | Node cn ct [] => [(prefix ++ [cn], ct, true)]
-          | Node cn ct [Node gn gt []] => [(prefix ++ [cn; gn], ct, true)]
+          | Node cn ct [Node gn gt []] =>
+              if t_eqb NM gt ct then [(prefix ++ [cn; gn], ct, true)]
+              else (prefix ++ [cn], ct, false) :: cl_nodes (prefix ++ [cn]) child
           | Node cn ct _ => (prefix ++ [cn], ct, false) :: cl_nodes (prefix ++ [cn]) child
           end) ch
     end.
@@ -116,7 +163,9 @@ Section Decode.
   Definition cl_child (prefix : list bytes) (child : tree) : list dec :=
     match child with
     | Node cn ct [] => [(prefix ++ [cn], ct, true)]
-    | Node cn ct [Node gn gt []] => [(prefix ++ [cn; gn], ct, true)]
+    | Node cn ct [Node gn gt []] =>
+        if t_eqb NM gt ct then [(prefix ++ [cn; gn], ct, true)]
+        else (prefix ++ [cn], ct, false) :: cl_nodes (prefix ++ [cn]) child
     | Node cn ct _ => (prefix ++ [cn], ct, false) :: cl_nodes (prefix ++ [cn]) child
     end.
 
@@ -124,60 +173,136 @@ Section Decode.
     cl_nodes prefix (Node n x ch) = flat_map (cl_child prefix) ch.
   Proof. reflexivity. Qed.
 
-  (** the third branch of [child_rows true] / [cl_child], for the two shapes that reach it *)
-  Definition cl_other (ch : list tree) : Prop :=
-    match ch with
-    | [] => False
-    | [Node _ _ []] => False
-    | _ => True
+  Fixpoint rcl_nodes (prefix : list bytes) (t : tree) : list rdec :=
+    match t with
+    | Node _ _ ch =>
+        flat_map (fun child =>
+          match child with
+          | Node cn ct [] => [(prefix, [(cn, ct)], ct, true)]
+          | Node cn ct [Node gn gt []] =>
+              if t_eqb NM gt ct then [(prefix, [(cn, ct); (gn, gt)], ct, true)]
+              else (prefix, [(cn, ct)], ct, false) :: rcl_nodes (prefix ++ [cn]) child
+          | Node cn ct _ => (prefix, [(cn, ct)], ct, false) :: rcl_nodes (prefix ++ [cn]) child
+          end) ch
     end.
 
+  Definition rcl_child (prefix : list bytes) (child : tree) : list rdec :=
+    match child with
+    | Node cn ct [] => [(prefix, [(cn, ct)], ct, true)]
+    | Node cn ct [Node gn gt []] =>
+        if t_eqb NM gt ct then [(prefix, [(cn, ct); (gn, gt)], ct, true)]
+        else (prefix, [(cn, ct)], ct, false) :: rcl_nodes (prefix ++ [cn]) child
+    | Node cn ct _ => (prefix, [(cn, ct)], ct, false) :: rcl_nodes (prefix ++ [cn]) child
+    end.
+
+  Lemma rcl_nodes_eq prefix n x ch :
+    rcl_nodes prefix (Node n x ch) = flat_map (rcl_child prefix) ch.
+  Proof. reflexivity. Qed.
+
+  (** the three shapes of a child with total [x] and children [ch] in
+      collapse-last mode: a leaf; joined with its only child, a leaf with a
+      Go-equal total; everything else (a row of its own, children below) *)
+  Definition cl_join (x : T) (ch : list tree) : option (bytes * T) :=
+    match ch with
+    | [Node gn gt []] => if t_eqb NM gt x then Some (gn, gt) else None
+    | _ => None
+    end.
+
+  Definition cl_other (x : T) (ch : list tree) : Prop := ch <> [] /\ cl_join x ch = None.
+
+  Lemma cl_cases (x : T) (ch : list tree) :
+    ch = [] \/ (exists gn gt, ch = [Node gn gt []] /\ t_eqb NM gt x = true) \/ cl_other x ch.
+  Proof.
+    unfold cl_other.
+    destruct ch as [|[gn gt [|g2 gr]] [|c2 r]]; cbn [cl_join]; auto;
+      try (right; right; split; [discriminate|reflexivity]).
+    destruct (t_eqb NM gt x) eqn:E.
+    - right. left. exists gn, gt. split; [reflexivity|exact E].
+    - right. right. split; [discriminate|reflexivity].
+  Qed.
+
+  Lemma cl_other_nonempty x ch : cl_other x ch -> ch <> [].
+  Proof. intros [H _]. exact H. Qed.
+
+  Lemma child_rows_true_join level n x gn gt :
+    t_eqb NM gt x = true ->
+    child_rows NM true level (Node n x [Node gn gt []]) = [(x, level, n ++ [c_slash] ++ gn)].
+  Proof. intros E. cbn [child_rows andb]. rewrite E. reflexivity. Qed.
+
   Lemma child_rows_true_other level n x ch :
-    cl_other ch ->
+    cl_other x ch ->
     child_rows NM true level (Node n x ch) =
     (x, level, n) :: flat_map (child_rows NM true (S level)) ch.
   Proof.
-    destruct ch as [|[gn gt [|g2 gr]] [|c2 r]]; cbn [cl_other]; intros H;
-      try contradiction; reflexivity.
+    intros [Hne Hj].
+    destruct ch as [|[gn gt [|g2 gr]] [|c2 r]]; try congruence; try reflexivity.
+    cbn [cl_join] in Hj. cbn [child_rows andb].
+    destruct (t_eqb NM gt x); [discriminate|reflexivity].
   Qed.
 
+  Lemma cl_child_join prefix n x gn gt :
+    t_eqb NM gt x = true ->
+    cl_child prefix (Node n x [Node gn gt []]) = [(prefix ++ [n; gn], x, true)].
+  Proof. intros E. cbn [cl_child]. rewrite E. reflexivity. Qed.
+
   Lemma cl_child_other prefix n x ch :
-    cl_other ch ->
+    cl_other x ch ->
     cl_child prefix (Node n x ch) =
     (prefix ++ [n], x, false) :: flat_map (cl_child (prefix ++ [n])) ch.
   Proof.
-    destruct ch as [|[gn gt [|g2 gr]] [|c2 r]]; cbn [cl_other]; intros H;
-      try contradiction; reflexivity.
+    intros [Hne Hj].
+    destruct ch as [|[gn gt [|g2 gr]] [|c2 r]]; try congruence; try reflexivity.
+    cbn [cl_join] in Hj. cbn [cl_child].
+    destruct (t_eqb NM gt x); [discriminate|reflexivity].
   Qed.
 
-  (** the three shapes of a child in collapse-last mode *)
-  Lemma cl_cases (ch : list tree) :
-    ch = [] \/ (exists gn gt, ch = [Node gn gt []]) \/ cl_other ch.
+  Lemma rcl_child_join prefix n x gn gt :
+    t_eqb NM gt x = true ->
+    rcl_child prefix (Node n x [Node gn gt []]) = [(prefix, [(n, x); (gn, gt)], x, true)].
+  Proof. intros E. cbn [rcl_child]. rewrite E. reflexivity. Qed.
+
+  Lemma rcl_child_other prefix n x ch :
+    cl_other x ch ->
+    rcl_child prefix (Node n x ch) =
+    (prefix, [(n, x)], x, false) :: flat_map (rcl_child (prefix ++ [n])) ch.
   Proof.
-    destruct ch as [|[gn gt [|g2 gr]] [|c2 r]]; cbn [cl_other]; auto.
-    right. left. exists gn, gt. reflexivity.
+    intros [Hne Hj].
+    destruct ch as [|[gn gt [|g2 gr]] [|c2 r]]; try congruence; try reflexivity.
+    cbn [cl_join] in Hj. cbn [rcl_child].
+    destruct (t_eqb NM gt x); [discriminate|reflexivity].
   Qed.
 
-  Lemma cl_other_nonempty ch : cl_other ch -> ch <> [].
-  Proof. destruct ch; cbn [cl_other]; [contradiction|discriminate]. Qed.
+  Lemma rcl_child_dec (c : tree) :
+    forall prefix, map rdec_dec (rcl_child prefix c) = cl_child prefix c.
+  Proof.
+    induction c as [n x ch IH] using tree_ind'. intros prefix.
+    destruct (cl_cases x ch) as [E|[[gn [gt [E Heq]]]|Ho]].
+    - subst ch. reflexivity.
+    - subst ch. rewrite rcl_child_join, cl_child_join by exact Heq. reflexivity.
+    - rewrite (rcl_child_other prefix n x ch Ho), (cl_child_other prefix n x ch Ho).
+      cbn [map rdec_dec strip fdec_dec fst]. f_equal.
+      rewrite map_flat_map. apply flat_map_ext_Forall.
+      eapply Forall_impl; [|exact IH]. intros a Ha. apply Ha.
+  Qed.
 
   Lemma cl_child_dec (c : tree) :
     slash_free NM c -> forall level,
     starts_at NM level (child_rows NM true level c) /\
     forall st rest, head_le NM level rest ->
-      decode_from NM st (child_rows NM true level c ++ rest) =
-      cl_child (stack_path (pop_to level st)) c ++ decode_from NM st rest.
+      decode_full_from NM st (child_rows NM true level c ++ rest) =
+      map strip (rcl_child (stack_path (pop_to level st)) c) ++ decode_full_from NM st rest.
   Proof.
     induction c as [n x ch IH] using tree_ind'. intros Hsf level.
     apply slash_free_node in Hsf. destruct Hsf as [Hn Hch].
-    destruct (cl_cases ch) as [E|[[gn [gt E]]|Ho]].
-    - subst ch. cbn [child_rows cl_child].
+    destruct (cl_cases x ch) as [E|[[gn [gt [E Heq]]]|Ho]].
+    - subst ch. cbn [child_rows rcl_child].
       split; [eexists _, _, _; reflexivity|].
       intros st rest Hrest. cbn [app]. rewrite decode_leaf_row by assumption.
       rewrite split_on_absent by assumption. reflexivity.
-    - subst ch. cbn [child_rows cl_child].
+    - subst ch. rewrite child_rows_true_join by exact Heq.
       split; [eexists _, _, _; reflexivity|].
-      intros st rest Hrest. cbn [app]. rewrite decode_leaf_row by assumption.
+      intros st rest Hrest. rewrite rcl_child_join by exact Heq.
+      cbn [app]. rewrite decode_leaf_row by assumption.
       rewrite split_on_app_sep by assumption.
       inversion Hch as [|g' r' Hg _]; subst g' r'.
       apply slash_free_node in Hg. destruct Hg as [Hgn _].
@@ -185,77 +310,145 @@ Section Decode.
     - rewrite (child_rows_true_other level n x ch Ho).
       split; [eexists _, _, _; reflexivity|].
       intros st rest Hrest. cbn [app].
-      rewrite (cl_child_other _ n x ch Ho).
-      rewrite (decode_header_forest (child_rows NM true (S level)) cl_child).
-      + rewrite split_on_absent by assumption. reflexivity.
+      rewrite (rcl_child_other _ n x ch Ho). cbn [map strip fst].
+      rewrite (decode_header_forest (child_rows NM true (S level))
+                 (fun pre a => map strip (rcl_child pre a))).
+      + rewrite split_on_absent by assumption. rewrite map_flat_map. reflexivity.
       + eapply Forall_impl; [|exact (Forall_mp _ _ _ IH Hch)].
         intros a Ha. exact (Ha (S level)).
-      + apply cl_other_nonempty, Ho.
+      + apply (cl_other_nonempty x), Ho.
       + assumption.
   Qed.
 
-  (** ** Collapsed mode: one row per maximal chain of sole children *)
+  (** ** Collapsed mode: one row per maximal chain of sole children with Go-equal totals *)
   Fixpoint dj (pre : list bytes) (tot : T) (t : tree) : list dec :=
     match t with
-    | Node n _ [only] => dj (pre ++ [n]) tot only
-    | Node n _ ch =>
-        (pre ++ [n], tot, is_nil ch) :: flat_map (fun c => dj (pre ++ [n]) (t_total NM c) c) ch
+    | Node n x ch =>
+        let stop := (pre ++ [n], tot, is_nil ch)
+                      :: flat_map (fun c => dj (pre ++ [n]) (t_total NM c) c) ch in
+        match ch with
+        | [only] => if t_eqb NM (t_total NM only) x then dj (pre ++ [n]) tot only else stop
+        | _ => stop
+        end
     end.
 
   Definition dj_child (pre : list bytes) (c : tree) : list dec := dj pre (t_total NM c) c.
 
-  Definition not_single {A} (ch : list A) : Prop := match ch with [_] => False | _ => True end.
+  Lemma dj_follow pre tot n x ch only :
+    jump_next NM x ch = Some only ->
+    dj pre tot (Node n x ch) = dj (pre ++ [n]) tot only.
+  Proof.
+    intros H. destruct (jump_next_some _ _ _ _ H) as [E Heq]. subst ch.
+    cbn [dj]. rewrite Heq. reflexivity.
+  Qed.
 
-  Lemma dj_single pre tot n x only :
-    dj pre tot (Node n x [only]) = dj (pre ++ [n]) tot only.
-  Proof. reflexivity. Qed.
-
-  Lemma dj_end pre tot n x ch :
-    not_single ch ->
+  Lemma dj_stop pre tot n x ch :
+    jump_next NM x ch = None ->
     dj pre tot (Node n x ch) = (pre ++ [n], tot, is_nil ch) :: flat_map (dj_child (pre ++ [n])) ch.
-  Proof. destruct ch as [|c1 [|c2 r]]; intros H; [reflexivity|contradiction|reflexivity]. Qed.
+  Proof.
+    destruct ch as [|c1 [|c2 r]]; cbn [jump_next dj]; intros H; try reflexivity.
+    destruct (t_eqb NM (t_total NM c1) x); [discriminate|reflexivity].
+  Qed.
 
-  Lemma single_cases {A} (ch : list A) : (exists only, ch = [only]) \/ not_single ch.
-  Proof. destruct ch as [|c1 [|c2 r]]; cbn; eauto. Qed.
+  (** [acc] = the (segment, total) pairs of the chain so far *)
+  Fixpoint rdj (pp : list bytes) (tot : T) (acc : list (bytes * T)) (t : tree) : list rdec :=
+    match t with
+    | Node n x ch =>
+        let stop := (pp, acc ++ [(n, x)], tot, is_nil ch)
+                      :: flat_map (fun c => rdj (pp ++ map fst acc ++ [n]) (t_total NM c) [] c) ch in
+        match ch with
+        | [only] => if t_eqb NM (t_total NM only) x then rdj pp tot (acc ++ [(n, x)]) only else stop
+        | _ => stop
+        end
+    end.
+
+  Definition rdj_child (pre : list bytes) (c : tree) : list rdec := rdj pre (t_total NM c) [] c.
+
+  Lemma rdj_follow pp tot acc n x ch only :
+    jump_next NM x ch = Some only ->
+    rdj pp tot acc (Node n x ch) = rdj pp tot (acc ++ [(n, x)]) only.
+  Proof.
+    intros H. destruct (jump_next_some _ _ _ _ H) as [E Heq]. subst ch.
+    cbn [rdj]. rewrite Heq. reflexivity.
+  Qed.
+
+  Lemma rdj_stop pp tot acc n x ch :
+    jump_next NM x ch = None ->
+    rdj pp tot acc (Node n x ch) =
+    (pp, acc ++ [(n, x)], tot, is_nil ch) :: flat_map (rdj_child (pp ++ map fst acc ++ [n])) ch.
+  Proof.
+    destruct ch as [|c1 [|c2 r]]; cbn [jump_next rdj]; intros H; try reflexivity.
+    destruct (t_eqb NM (t_total NM c1) x); [discriminate|reflexivity].
+  Qed.
+
+  Lemma map_fst_snoc (acc : list (bytes * T)) n x : map fst (acc ++ [(n, x)]) = map fst acc ++ [n].
+  Proof. rewrite map_app. reflexivity. Qed.
+
+  Lemma rdj_dec (t : tree) :
+    forall pp tot acc, map rdec_dec (rdj pp tot acc t) = dj (pp ++ map fst acc) tot t.
+  Proof.
+    induction t as [n x ch IH] using tree_ind'. intros pp tot acc.
+    destruct (jump_next_cases NM x ch) as [[only Hj]|Hj].
+    - rewrite (rdj_follow _ _ _ _ _ _ _ Hj), (dj_follow _ _ _ _ _ _ Hj).
+      destruct (jump_next_some _ _ _ _ Hj) as [E _]. subst ch.
+      inversion IH as [|c r Hc _]; subst c r.
+      rewrite Hc, map_fst_snoc, app_assoc. reflexivity.
+    - rewrite (rdj_stop _ _ _ _ _ _ Hj), (dj_stop _ _ _ _ _ Hj).
+      cbn [map rdec_dec strip fdec_dec fst]. rewrite map_fst_snoc, app_assoc. f_equal.
+      rewrite map_flat_map. apply flat_map_ext_Forall.
+      eapply Forall_impl; [|exact IH]. intros a Ha. unfold rdj_child, dj_child.
+      rewrite Ha. cbn [map]. rewrite app_nil_r. reflexivity.
+  Qed.
+
+  Lemma rdj_child_dec (c : tree) :
+    forall pre, map rdec_dec (rdj_child pre c) = dj_child pre c.
+  Proof.
+    intros pre. unfold rdj_child, dj_child. rewrite rdj_dec. cbn [map]. rewrite app_nil_r. reflexivity.
+  Qed.
 
   Lemma jump_starts (t : tree) :
     forall level tot acc, starts_at NM level (jump_print NM level tot acc t).
   Proof.
     induction t as [n x ch IH] using tree_ind'. intros level tot acc.
-    destruct (single_cases ch) as [[only E]|Hns].
-    - subst ch. rewrite jump_print_single. inversion IH as [|c r Hc _]. apply Hc.
-    - rewrite jump_print_end by exact Hns. eexists _, _, _; reflexivity.
+    destruct (jump_next_cases NM x ch) as [[only Hj]|Hj].
+    - rewrite (jump_print_follow _ _ _ _ _ _ _ _ Hj).
+      destruct (jump_next_some _ _ _ _ Hj) as [E _]. subst ch.
+      inversion IH as [|c r Hc _]. apply Hc.
+    - rewrite (jump_print_stop _ _ _ _ _ _ _ Hj). eexists _, _, _; reflexivity.
   Qed.
 
   Lemma jump_dec (t : tree) :
     slash_free NM t -> forall level tot acc st rest,
-    Forall nosl acc -> head_le NM level rest ->
-    decode_from NM st (jump_print NM level tot acc t ++ rest) =
-    dj (stack_path (pop_to level st) ++ acc) tot t ++ decode_from NM st rest.
+    Forall nosl (map fst acc) -> head_le NM level rest ->
+    decode_full_from NM st (jump_print NM level tot (map fst acc) t ++ rest) =
+    map strip (rdj (stack_path (pop_to level st)) tot acc t) ++ decode_full_from NM st rest.
   Proof.
     induction t as [n x ch IH] using tree_ind'. intros Hsf level tot acc st rest Hacc Hrest.
     apply slash_free_node in Hsf. destruct Hsf as [Hn Hch].
-    assert (Hsplit : split_on c_slash (join [c_slash] (acc ++ [n])) = acc ++ [n]).
-    { apply split_join.
-      - destruct acc; discriminate.
-      - apply Forall_app. split; [assumption|]. constructor; [assumption|constructor]. }
-    destruct (single_cases ch) as [[only E]|Hns].
-    - subst ch. rewrite jump_print_single, dj_single.
+    assert (Hacc' : Forall nosl (map fst (acc ++ [(n, x)]))).
+    { rewrite map_fst_snoc. apply Forall_app. split; [assumption|].
+      constructor; [assumption|constructor]. }
+    assert (Hsplit : split_on c_slash (join [c_slash] (map fst acc ++ [n])) = map fst (acc ++ [(n, x)])).
+    { rewrite map_fst_snoc. apply split_join.
+      - destruct (map fst acc); discriminate.
+      - rewrite <- map_fst_snoc with (x := x). exact Hacc'. }
+    destruct (jump_next_cases NM x ch) as [[only Hj]|Hj].
+    - rewrite (jump_print_follow _ _ _ _ _ _ _ _ Hj), (rdj_follow _ _ _ _ _ _ _ Hj).
+      destruct (jump_next_some _ _ _ _ Hj) as [E _]. subst ch.
       inversion IH as [|c r Hc _]; subst c r. inversion Hch as [|c r Hso _]; subst c r.
-      rewrite Hc; [|assumption| |assumption].
-      + rewrite app_assoc. reflexivity.
-      + apply Forall_app. split; [assumption|]. constructor; [assumption|constructor].
-    - rewrite jump_print_end by exact Hns. rewrite dj_end by exact Hns. cbn [app].
+      rewrite <- map_fst_snoc with (x := x).
+      apply Hc; assumption.
+    - rewrite (jump_print_stop _ _ _ _ _ _ _ Hj), (rdj_stop _ _ _ _ _ _ Hj). cbn [app map strip].
       destruct ch as [|c1 r].
-      + cbn [flat_map app is_nil]. rewrite decode_leaf_row by assumption.
-        rewrite Hsplit, app_assoc. reflexivity.
-      + rewrite (decode_header_forest (fun c => jump_print NM (S level) (t_total NM c) [] c) dj_child).
-        * rewrite Hsplit, app_assoc. reflexivity.
+      + cbn [flat_map app is_nil map]. rewrite decode_leaf_row by assumption.
+        rewrite Hsplit. reflexivity.
+      + rewrite (decode_header_forest (fun c => jump_print NM (S level) (t_total NM c) [] c)
+                   (fun pre a => map strip (rdj_child pre a))).
+        * rewrite Hsplit, map_fst_snoc, map_flat_map. reflexivity.
         * eapply Forall_impl; [|exact (Forall_mp _ _ _ IH Hch)].
           intros a Ha. split; [apply jump_starts|].
-          intros st' rest' Hrest'. unfold dj_child.
-          rewrite Ha; [|constructor|assumption].
-          rewrite app_nil_r. reflexivity.
+          intros st' rest' Hrest'. unfold rdj_child.
+          apply (Ha (S level) (t_total NM a) [] st' rest'); [constructor|assumption].
         * discriminate.
         * assumption.
   Qed.
@@ -264,58 +457,98 @@ Section Decode.
     slash_free NM c -> forall level,
     starts_at NM level (jump_print NM level (t_total NM c) [] c) /\
     forall st rest, head_le NM level rest ->
-      decode_from NM st (jump_print NM level (t_total NM c) [] c ++ rest) =
-      dj_child (stack_path (pop_to level st)) c ++ decode_from NM st rest.
+      decode_full_from NM st (jump_print NM level (t_total NM c) [] c ++ rest) =
+      map strip (rdj_child (stack_path (pop_to level st)) c) ++ decode_full_from NM st rest.
   Proof.
     intros Hsf level. split; [apply jump_starts|].
-    intros st rest Hrest. unfold dj_child.
-    rewrite jump_dec; [|assumption|constructor|assumption].
-    rewrite app_nil_r. reflexivity.
+    intros st rest Hrest. unfold rdj_child.
+    apply (jump_dec c Hsf level (t_total NM c) [] st rest); [constructor|assumption].
   Qed.
 
   (** ** The three modes on a root *)
-  Lemma decode_root (rows_of : tree -> list row) (dec_of : list bytes -> tree -> list dec)
+  Lemma decode_root (rows_of : tree -> list row) (dec_of : list bytes -> tree -> list fdec)
         (ch : list tree) :
     Forall (fun c =>
               starts_at NM O (rows_of c) /\
               forall st rest, head_le NM O rest ->
-                decode_from NM st (rows_of c ++ rest) =
-                dec_of (stack_path (pop_to O st)) c ++ decode_from NM st rest) ch ->
-    decode NM (flat_map rows_of ch) = flat_map (dec_of []) ch.
+                decode_full_from NM st (rows_of c ++ rest) =
+                dec_of (stack_path (pop_to O st)) c ++ decode_full_from NM st rest) ch ->
+    decode_full_from NM [] (flat_map rows_of ch) = flat_map (dec_of []) ch.
   Proof.
-    intros Hall. unfold decode.
+    intros Hall.
     rewrite <- (app_nil_r (flat_map rows_of ch)).
     rewrite (decode_forest NM rows_of dec_of O ch Hall); [|exact I].
-    cbn [pop_to stack_path decode_from]. apply app_nil_r.
+    cbn [pop_to stack_path decode_full_from]. apply app_nil_r.
+  Qed.
+
+  (** *** the full read-back: every row with the node totals behind its segments *)
+  Theorem decode_full_plain (t : tree) :
+    slash_free_below NM t ->
+    decode_full_from NM [] (print_node NM false O t) =
+    map strip (flat_map (rchild_nodes []) (t_children NM t)).
+  Proof.
+    destruct t as [n x ch]. unfold slash_free_below. cbn [t_children]. intros Hsf.
+    rewrite print_node_eq, map_flat_map.
+    apply (decode_root (child_rows NM false O) (fun pre a => map strip (rchild_nodes pre a))).
+    eapply Forall_impl; [|exact Hsf].
+    intros c Hc. apply plain_child_dec, Hc.
+  Qed.
+
+  Theorem decode_full_collapse_last (t : tree) :
+    slash_free_below NM t ->
+    decode_full_from NM [] (print_node NM true O t) =
+    map strip (flat_map (rcl_child []) (t_children NM t)).
+  Proof.
+    destruct t as [n x ch]. unfold slash_free_below. cbn [t_children]. intros Hsf.
+    rewrite print_node_eq, map_flat_map.
+    apply (decode_root (child_rows NM true O) (fun pre a => map strip (rcl_child pre a))).
+    eapply Forall_impl; [|exact Hsf].
+    intros c Hc. apply cl_child_dec, Hc.
+  Qed.
+
+  Theorem decode_full_collapsed (t : tree) :
+    slash_free_below NM t ->
+    decode_full_from NM [] (print_collapsed NM t) =
+    map strip (flat_map (rdj_child []) (t_children NM t)).
+  Proof.
+    unfold slash_free_below. intros Hsf. rewrite print_collapsed_eq, map_flat_map.
+    apply (decode_root (fun c => jump_print NM O (t_total NM c) [] c)
+                       (fun pre a => map strip (rdj_child pre a))).
+    eapply Forall_impl; [|exact Hsf].
+    intros c Hc. apply jump_child_dec, Hc.
+  Qed.
+
+  (** *** projected to [decode] *)
+  Lemma decode_of_full (rows : list row) (rds : list rdec) :
+    decode_full_from NM [] rows = map strip rds -> decode NM rows = map rdec_dec rds.
+  Proof.
+    intros H. unfold decode. rewrite decode_from_full, H, map_map. reflexivity.
   Qed.
 
   Theorem decode_plain (t : tree) :
     slash_free_below NM t ->
     decode NM (print_node NM false O t) = nodes_below [] t.
   Proof.
-    destruct t as [n x ch]. unfold slash_free_below. cbn [t_children]. intros Hsf.
-    rewrite print_node_eq, nodes_below_eq.
-    apply decode_root. eapply Forall_impl; [|exact Hsf].
-    intros c Hc. apply plain_child_dec, Hc.
+    intros Hsf. rewrite (decode_of_full _ _ (decode_full_plain t Hsf)).
+    destruct t as [n x ch]. cbn [t_children]. rewrite nodes_below_eq, map_flat_map.
+    apply flat_map_ext_Forall, Forall_forall. intros c _. apply rchild_nodes_dec.
   Qed.
 
   Theorem decode_collapse_last (t : tree) :
     slash_free_below NM t ->
     decode NM (print_node NM true O t) = cl_nodes [] t.
   Proof.
-    destruct t as [n x ch]. unfold slash_free_below. cbn [t_children]. intros Hsf.
-    rewrite print_node_eq, cl_nodes_eq.
-    apply decode_root. eapply Forall_impl; [|exact Hsf].
-    intros c Hc. apply cl_child_dec, Hc.
+    intros Hsf. rewrite (decode_of_full _ _ (decode_full_collapse_last t Hsf)).
+    destruct t as [n x ch]. cbn [t_children]. rewrite cl_nodes_eq, map_flat_map.
+    apply flat_map_ext_Forall, Forall_forall. intros c _. apply rcl_child_dec.
   Qed.
 
   Theorem decode_collapsed (t : tree) :
     slash_free_below NM t ->
     decode NM (print_collapsed NM t) = flat_map (dj_child []) (t_children NM t).
   Proof.
-    unfold slash_free_below. intros Hsf. rewrite print_collapsed_eq.
-    apply (decode_root (fun c => jump_print NM O (t_total NM c) [] c) dj_child).
-    eapply Forall_impl; [|exact Hsf].
-    intros c Hc. apply jump_child_dec, Hc.
+    intros Hsf. rewrite (decode_of_full _ _ (decode_full_collapsed t Hsf)).
+    rewrite map_flat_map.
+    apply flat_map_ext_Forall, Forall_forall. intros c _. apply rdj_child_dec.
   Qed.
 End Decode.
